@@ -1,2 +1,3 @@
 -- Root of the `SteelVerif` library: every model, lemma and property file.
 import SteelVerif.C05.Props
+import SteelVerif.C06.Props
